@@ -3,6 +3,7 @@ package main
 import (
 	"bytes"
 	"fmt"
+	"golang.org/x/text/encoding/charmap"
 	"os"
 	"os/exec"
 	"path/filepath"
@@ -24,6 +25,8 @@ func tableFingerprint() string {
 		url.C0control, url.C0controlOrSpace, url.ForbiddenHostCodePoint, url.ForbiddenDomainCodePoint, url.VerifSomeURLCodePoints()} {
 		sb.WriteString(b.String() + ";")
 	}
+	// what a freshly built default parser sees (the package-level default option values, the special-scheme table among them)
+	sb.WriteString(cfgLine("d", url.NewParser()) + ";")
 	for _, p := range []url.Parser{canonicalizer.WhatWg, canonicalizer.WhatWgSortQuery, canonicalizer.GoogleSafeBrowsing, canonicalizer.Semantic} {
 		v := canonicalizer.VerifProfileOf(p)
 		sb.WriteString(cfgLine("x", v.Parser) + fmt.Sprintf("|%v%v%v%v%d%s;", v.RemoveUserInfo, v.RemovePort, v.RemoveFragment, v.RepeatedPercentDecoding, v.SortQuery, v.DefaultScheme))
@@ -81,6 +84,7 @@ func concRound(seed uint64, round int, workers int) (njobs int, diffs []string) 
 		for p := range parsers {
 			jobs = append(jobs, concJob{kind: 2, parser: p, input: in})
 		}
+		jobs = append(jobs, concJob{kind: 7, parser: len(jobs)}) // building a parser / profile with options while others parse
 		jobs = append(jobs, concJob{kind: 0, input: in}, concJob{kind: 1, base: r.Intn(len(bases)), input: in},
 			concJob{kind: 3, base: r.Intn(len(bases)), input: in}, concJob{kind: 5, parser: r.Intn(4), base: r.Intn(len(bases)), input: in},
 			concJob{kind: 6, base: r.Intn(len(bases))})
@@ -115,6 +119,23 @@ func concRound(seed uint64, round int, workers int) (njobs int, diffs []string) 
 			res.u, res.err = parsers[3+j.parser%4].Parse(j.input)
 		case 5:
 			res.u, res.err = parsers[3+j.parser%4].ParseRef(b.Href(false), j.input)
+		case 7:
+			// constructing parsers and profiles is part of using them from many goroutines: no constructor may write shared state
+			switch j.parser % 6 {
+			case 0:
+				_ = url.NewParser(url.WithSpecialSchemes(map[string]string{"ftp": "21", "file": "", "http": "80", "https": "443", "ws": "80", "wss": "443", "foo": "99"}))
+			case 1:
+				_ = canonicalizer.New(canonicalizer.WithDefaultScheme("http"), canonicalizer.WithRepeatedPercentDecoding(), url.WithSpecialSchemes(map[string]string{"http": "80", "bar": "7"}))
+			case 2:
+				_ = url.NewParser(url.WithPathPercentEncodeSet(url.PathPercentEncodeSet.Set('a')), url.WithQueryPercentEncodeSet(url.QueryPercentEncodeSet.Clear('#')))
+			case 3:
+				_ = url.NewParser(url.WithLaxHostParsing(), url.WithPercentEncodeSinglePercentSign(), url.WithCollapseConsecutiveSlashes(), url.WithAcceptInvalidCodepoints())
+			case 4:
+				_ = canonicalizer.New(canonicalizer.WithSortQuery(canonicalizer.SortKeys), canonicalizer.WithRemoveFragment(), canonicalizer.WithRemovePort(), canonicalizer.WithRemoveUserInfo())
+			default:
+				_ = url.NewParser(url.WithReportValidationErrors(), url.WithFailOnValidationError(), url.WithSkipWindowsDriveLetterNormalization(), url.WithSkipTrailingSlashNormalization())
+			}
+			return res
 		default:
 			// getters of the shared base
 			_ = b.Href(false) + b.Protocol() + b.Username() + b.Password() + b.Host() + b.Hostname() + b.Port() + b.Pathname() + b.Search() + b.Hash() + b.String()
@@ -153,7 +174,7 @@ func concRound(seed uint64, round int, workers int) (njobs int, diffs []string) 
 	for w := range raw {
 		par[w] = make([]string, len(jobs))
 		for i := range jobs {
-			if jobs[i].kind != 6 {
+			if jobs[i].kind < 6 {
 				par[w][i] = show(jobs[i], raw[w][i])
 			}
 		}
@@ -161,7 +182,7 @@ func concRound(seed uint64, round int, workers int) (njobs int, diffs []string) 
 	bases = mkBases()
 	seq := make([]string, len(jobs))
 	for i, j := range jobs {
-		if j.kind != 6 {
+		if j.kind < 6 {
 			seq[i] = show(j, exec(j))
 		}
 	}
@@ -200,6 +221,14 @@ func init() {
 		run: func(c *Ctx) {
 			rounds := 6 * c.Scale
 			fp0 := tableFingerprint()
+			// building parsers and profiles with options must leave every package-level default as it is
+			_ = url.NewParser(url.WithSpecialSchemes(map[string]string{"http": "80", "zzz": "1", "file": ""}))
+			_ = canonicalizer.New(url.WithSpecialSchemes(map[string]string{"yyy": "2"}), canonicalizer.WithDefaultScheme("yyy"))
+			_ = url.NewParser(url.WithPathPercentEncodeSet(url.PathPercentEncodeSet.Set('a')), url.WithLaxHostParsing(), url.WithEncodingOverride(charmap.ISO8859_1))
+			if tableFingerprint() != fp0 {
+				c.Report(Finding{Class: "violation", What: "building a parser with options changed a package-level default (a freshly built default parser, a named set or a predefined profile differs from before)", Case: Case{Kind: "conc", Family: "constructors"}})
+				fp0 = tableFingerprint()
+			}
 			// 1. in-process (no race detector): results equal to sequential, tables unchanged
 			for r := 0; r < rounds; r++ {
 				n, diffs := concRound(c.Seed, r, runtime.NumCPU())
